@@ -164,6 +164,11 @@ def run(ctx):
     # ---- MemoryArea::new and FramebufferType::serialize
     ma = L.adt(F, "multiboot2", "MemoryArea")
     mn = F.find(impl_self_path=ma["path"], name="new", impl_trait=None) if ma else []
+    if not mn and ma:
+        # generic in its third parameter (`impl Into<MemoryAreaTypeId>`) and not instantiated inside the crates: the polymorphic body
+        mn = [f for k, f in F.fns.items() if f.get("impl_self_path") == ma["path"] and f.get("name") == "new" and not f.get("impl_trait") and not f.get("closure")]
+    if len(mn) != 1:
+        ctx.fail("ANCHOR", "MemoryArea::new", "the constructor MemoryArea::new exists (one body)", (ma or {}).get("span", ""), "%d found" % len(mn))
     if len(mn) == 1:
         rt, _ = an.of(F, mn[0]).ret()
         v = N(rt) if rt is not None else None
